@@ -190,3 +190,23 @@ gproof! { fn c14_offset_eq_ne_debug_delegate() {
     core::mem::forget(a);
     core::mem::forget(b);
 } }
+
+// ---- check mode (proof_for_contract) ----
+// @h props=C04 mode=check fuc=OffsetArc::strong_count
+#[kani::proof_for_contract(OffsetArc::<S9a8>::strong_count)]
+fn c04_chk_offset_strong_count() {
+    vrt::ghost_reset();
+    let o = Arc::into_raw_offset(mk(S9a8::any(), any_count()));
+    let _ = OffsetArc::strong_count(&o);
+    kani::cover!(true, "END");
+    core::mem::forget(o);
+}
+// @h props=C04,C11 mode=check fuc=OffsetArc::borrow_arc
+#[kani::proof_for_contract(OffsetArc::<S9a8>::borrow_arc)]
+fn c11_chk_offset_borrow_arc() {
+    vrt::ghost_reset();
+    let o = Arc::into_raw_offset(mk(S9a8::any(), any_count()));
+    let _ = o.borrow_arc();
+    kani::cover!(true, "END");
+    core::mem::forget(o);
+}
